@@ -240,18 +240,21 @@ def ligActions (actions components ligatures : Nat → Option Nat) :
         else ligActions actions components ligatures fuel (k + 1) acc [p] { s with xs := xs, stack := rest }
       else ligActions actions components ligatures fuel (k + 1) acc (p :: pending) { s with stack := rest }
 
+/-- "setComponent: push this glyph onto the component stack" -/
+def ligPush (s : St) : Option St :=
+  match s.stack with
+  | p :: _ => some (if p == s.i then s else ligPushPos s s.i)   -- [conv] never push the same position twice (DontAdvance loops)
+  | [] => if s.lost != 0 then none else some (ligPushPos s s.i) -- (every remembered component popped, older ones below: outside the domain)
+
+/-- "performAction: use the ligActionIndex to process a ligature group" -/
+def ligPerform (actions components ligatures : Nat → Option Nat) (e : Entry) (s : St) : Option St :=
+  if s.stack.isEmpty then (if s.lost != 0 then none else some s)
+  else if s.i ≥ s.len then some s        -- [conv] no action at end of text
+  else ligActions actions components ligatures (s.stack.length + 1) e.x1 0 [] s
+
 def ligAct (actions components ligatures : Nat → Option Nat) (e : Entry) (s : St) : Option St := do
-  let s := if has e.flags fSetMark then
-      -- [conv] never push the same position twice (DontAdvance loops)
-      match s.stack with
-      | p :: _ => if p == s.i then s else ligPushPos s s.i
-      | [] => ligPushPos s s.i
-    else s
-  if has e.flags fPerformAction then
-    if s.stack.isEmpty then some s
-    else if s.i ≥ s.len then some s        -- [conv] no action at end of text
-    else ligActions actions components ligatures (s.stack.length + 1) e.x1 0 [] s
-  else some s
+  let s ← if has e.flags fSetMark then ligPush s else some s
+  if has e.flags fPerformAction then ligPerform actions components ligatures e s else some s
 
 /-! ### insertion -/
 
